@@ -195,6 +195,41 @@ func init() {
 		}
 		return "ACCEPTED"
 	}
+	// Mtwice: a momentum of the (misbehaving) pillar elected for the next slot arrives through the bridge; its content lists
+	// a pooled user send to an embedded contract twice (changes hash computed over the doubled content). The blocks shipped
+	// with it are dressed up so that the number of distinct identifiers matches the content: the send's second copy is
+	// typed as a contract send (a type the per-block checks of a delivered momentum skip), plus a filler of that type.
+	ops.Extra["Mtwice"] = func(n *vnode.Node, o ops.Op) string {
+		pool := n.Chain.GetNewMomentumContent()
+		var call *nom.AccountBlock
+		for _, b := range pool {
+			if b.BlockType == nom.BlockTypeUserSend && types.IsEmbeddedAddress(b.ToAddress) {
+				call = b
+				break
+			}
+		}
+		if call == nil {
+			return "no-pooled-call"
+		}
+		gm, err := n.ForgeMomentum(0, append(append([]*nom.AccountBlock{}, pool...), call))
+		if err != nil {
+			return "err:forge"
+		}
+		var shipped []*nom.AccountBlock
+		for _, b := range gm.AccountBlocks {
+			if b.Hash != call.Hash {
+				shipped = append(shipped, b)
+			}
+		}
+		shipped = append(shipped,
+			&nom.AccountBlock{BlockType: nom.BlockTypeContractSend, Address: call.ToAddress, Hash: call.Hash, Height: call.Height, Amount: ops.Big(0)},
+			&nom.AccountBlock{BlockType: nom.BlockTypeContractSend, Address: call.ToAddress, Hash: types.NewHash([]byte("filler")), Height: 77, Amount: ops.Big(0)})
+		gm.AccountBlocks = shipped
+		if _, err, pan := n.InsertChain([]*nom.DetailedMomentum{gm}); err != nil || pan != nil {
+			return "refused"
+		}
+		return "ACCEPTED"
+	}
 	// Rhi: account A receives its pending send number B with a higher plasma ratio (can replace a pooled block at that height)
 	ops.Extra["Rhi"] = func(n *vnode.Node, o ops.Op) string {
 		addr := ops.Users[o.A].Address
@@ -308,6 +343,7 @@ func alphabet(thorough bool) []ops.Op {
 		{K: "Rhi", A: 1, B: 1},
 		{K: "CRskip", B: 0},
 		{K: "CRforge", B: 0},
+		{K: "Mtwice"},
 		{K: "Reorg"},
 	}
 	if thorough {
